@@ -25,8 +25,9 @@ def mkParticles : List FItem → Particles
   | [] => .nil
   | it :: rest => .cons it.particle (mkParticles rest)
 
-/-- `choice(items){1,1}` with root id `r` -/
-def flatChoice (r : Nat) (items : List FItem) : Particle := .group r .choice 1 (some 1) (mkParticles items)
+/-- `choice(items){lo,hi}` with root id `r` -/
+def flatChoice (r lo : Nat) (hi : Option Nat) (items : List FItem) : Particle :=
+  .group r .choice lo hi (mkParticles items)
 
 theorem leaves_mkParticles (items : List FItem) : (mkParticles items).leaves = items.map FItem.leaf := by
   induction items with
@@ -201,9 +202,9 @@ theorem liveLeaves_mkParticles (items : List FItem) :
     simp only [mkParticles, Particles.liveLeaves, FItem.particle, Particle.liveLeaves, ih, live, List.filter_cons]
     by_cases h : it.hi = some 0 <;> simp [h, bne]
 
-theorem liveLeaves_flatChoice (r : Nat) (items : List FItem) :
-    (flatChoice r items).liveLeaves = (live items).map FItem.leaf := by
-  simp [flatChoice, Particle.liveLeaves, liveLeaves_mkParticles]
+theorem liveLeaves_flatChoice (r lo : Nat) {hi : Option Nat} (hhi : hi ≠ some 0) (items : List FItem) :
+    (flatChoice r lo hi items).liveLeaves = (live items).map FItem.leaf := by
+  simp [flatChoice, Particle.liveLeaves, liveLeaves_mkParticles, hhi]
 
 theorem pairwise_forall {α : Type} {R : α → α → Prop} (hs : ∀ a b, R a b → R b a) :
     ∀ {l : List α}, l.Pairwise R → ∀ a ∈ l, ∀ b ∈ l, a ≠ b → R a b := by
@@ -248,33 +249,76 @@ theorem lang_toChoice {items : List FItem} {it : FItem} (hit : it ∈ items) {w 
     · exact .inl h
     · exact .inr (ih hit)
 
-theorem lang_flatChoice {r : Nat} {items : List FItem} {it : FItem} (hit : it ∈ items) {w : List ASym}
-    (h : Lang mm it.particle.toRx w) : Lang mm (flatChoice r items).toRx w := by
+/-- a word of one member, repeated as often as the root needs, is a word of the model -/
+theorem lang_flatChoice {r lo : Nat} {hi : Option Nat} (hhi : hi ≠ some 0) (hle : loLeHi lo hi = true)
+    {items : List FItem} {it : FItem} (hit : it ∈ items) {w : List ASym}
+    (h : Lang mm it.particle.toRx w) :
+    Lang mm (flatChoice r lo hi items).toRx (w ++ (List.replicate (lo - 1) w).flatten) := by
   simp only [flatChoice, Particle.toRx, Lang]
-  exact ⟨[w], by simp, by simp, by simp [leHi], by simpa using lang_toChoice hit h⟩
+  refine ⟨List.replicate ((lo - 1) + 1) w, by simp [List.replicate_succ], by simp; omega, ?_, ?_⟩
+  · cases hh : hi with
+    | none => simp [leHi]
+    | some k =>
+      simp only [hh, loLeHi, decide_eq_true_eq] at hle
+      have : k ≠ 0 := fun hk => hhi (by rw [hh, hk])
+      simp only [leHi, List.length_replicate]
+      omega
+  · intro x hx
+    rw [(List.mem_replicate.mp hx).2]
+    exact lang_toChoice hit h
 
-theorem visited_flatChoice (M : Ctx) (r : Nat) (items : List FItem) :
-    M.visited (flatChoice r items) = (live items).map fun it => (it.id, [r]) := by
-  simp [Ctx.visited, flatChoice, Particle.maxIsZero, Particle.leafPaths, leafPaths_mkParticles, live]
+theorem visited_flatChoice (M : Ctx) (r lo : Nat) {hi : Option Nat} (hhi : hi ≠ some 0) (items : List FItem) :
+    M.visited (flatChoice r lo hi items) = (live items).map fun it => (it.id, [r]) := by
+  simp [Ctx.visited, flatChoice, Particle.maxIsZero, Particle.leafPaths, leafPaths_mkParticles, live, hhi]
 
 /-- M on the flat fragment: accepted iff the live items have pairwise different names -/
-theorem accepts_flat {M : Ctx} {r : Nat} {items : List FItem} (h : FlatCtx M r items) :
-    M.accepts (flatChoice r items) = true ↔ (live items).Pairwise (fun a b => a.name ≠ b.name) := by
+theorem accepts_flat {M : Ctx} {r : Nat} {items : List FItem} (h : FlatCtx M r items) (lo : Nat)
+    {hi : Option Nat} (hhi : hi ≠ some 0) :
+    M.accepts (flatChoice r lo hi items) = true ↔ (live items).Pairwise (fun a b => a.name ≠ b.name) := by
   have hsub : (live items).Sublist items := List.filter_sublist
   have := outer_flat h (live items) [] {} (fun jt hjt => hsub.subset (by simpa using hjt))
     (by simpa using h.ids.sublist hsub) List.Pairwise.nil
-  simpa [Ctx.accepts, Ctx.checkModel, visited_flatChoice, Option.isNone_iff_eq_none] using this
+  simpa [Ctx.accepts, Ctx.checkModel, visited_flatChoice M r lo hhi, Option.isNone_iff_eq_none] using this
+
+/-- every symbol of a word of one item carries the item's name -/
+theorem names_item (it : FItem) {w : List ASym} (h : Lang mm it.particle.toRx w) : ∀ c ∈ w, c.1 = it.name := by
+  intro c hc
+  obtain ⟨l, hl, hm⟩ := lang_syms mm _ w h c hc
+  simp only [FItem.particle, Particle.toRx, Rx.leaves, List.mem_singleton] at hl
+  subst hl
+  simp only [mm, FItem.leaf, Leaf.matches, Bool.and_eq_true, List.contains_cons, List.contains_nil,
+    Bool.or_false, beq_iff_eq] at hm
+  exact hm.2
 
 /-- S on the flat fragment: two different live items with the same name are a conflict after the
-    empty prefix (both attributed symbols start a word of the model) -/
-theorem conflict_flat {r : Nat} {items : List FItem} {it jt : FItem} (hit : it ∈ live items) (hjt : jt ∈ live items)
+    empty prefix (both attributed symbols start a word of the model, all of whose names are that name) -/
+theorem conflict_flat {r lo : Nat} {hi : Option Nat} (hhi : hi ≠ some 0) (hle : loLeHi lo hi = true)
+    {items : List FItem} {it jt : FItem} (hit : it ∈ live items) (hjt : jt ∈ live items)
     (hle1 : loLeHi it.lo it.hi = true) (hle2 : loLeHi jt.lo jt.hi = true) (hn : it.name = jt.name) :
-    Lang mm (flatChoice r items).toRx ((it.name, it.id) :: List.replicate (it.lo - 1) (it.name, it.id)) ∧
-    Lang mm (flatChoice r items).toRx ((it.name, jt.id) :: List.replicate (jt.lo - 1) (it.name, jt.id)) := by
+    ∃ v1 v2 : List ASym, (∀ c ∈ v1, c.1 = it.name) ∧ (∀ c ∈ v2, c.1 = it.name) ∧
+      Lang mm (flatChoice r lo hi items).toRx ((it.name, it.id) :: v1) ∧
+      Lang mm (flatChoice r lo hi items).toRx ((it.name, jt.id) :: v2) := by
   obtain ⟨hi1, hl1⟩ := List.mem_filter.mp hit
   obtain ⟨hi2, hl2⟩ := List.mem_filter.mp hjt
-  refine ⟨lang_flatChoice hi1 (lang_item it (by simpa [bne] using hl1) hle1), ?_⟩
-  rw [hn]
-  exact lang_flatChoice hi2 (lang_item jt (by simpa [bne] using hl2) hle2)
+  have w1 := lang_item it (by simpa [bne] using hl1) hle1
+  have w2 := lang_item jt (by simpa [bne] using hl2) hle2
+  have n1 := names_item it w1
+  have n2 := names_item jt w2
+  have k1 := lang_flatChoice (r := r) hhi hle hi1 w1
+  have k2 := lang_flatChoice (r := r) hhi hle hi2 w2
+  rw [← hn] at k2 n2
+  refine ⟨_, _, ?_, ?_, by simpa using k1, by simpa using k2⟩
+  · intro c hc
+    rcases List.mem_append.mp hc with hc | hc
+    · exact n1 c (by simp [hc])
+    · obtain ⟨x, hx, hcx⟩ := List.mem_flatten.mp hc
+      rw [(List.mem_replicate.mp hx).2] at hcx
+      exact n1 c hcx
+  · intro c hc
+    rcases List.mem_append.mp hc with hc | hc
+    · exact n2 c (by simp [hc])
+    · obtain ⟨x, hx, hcx⟩ := List.mem_flatten.mp hc
+      rw [(List.mem_replicate.mp hx).2] at hcx
+      exact n2 c hcx
 
 end XsVerif.CM
